@@ -152,8 +152,10 @@ class ServerHandle:
 class Client:
     """A client connection stepping through its script; every step runs on the client's own thread."""
 
-    def __init__(self, cid: int, calls: list[list[Any]]) -> None:
+    def __init__(self, cid: int, calls: list[list[Any]], is_crash: Any = None) -> None:
         self.cid, self.calls = cid, calls
+        self.is_crash = is_crash or (lambda call: False)
+        self.opened_crash = False  # the step just taken sent a request that makes serve() raise
         self.idx = 0
         self.sess: Any = None  # open stream: dict(it, left, after, kind)
         self.cur: list[list[Any]] = []  # events of the call in progress
@@ -177,7 +179,7 @@ class Client:
 
     def _end_call(self) -> None:
         self.traces.append(I.cut(list(self.cur)))
-        if any(e[0] in ("blocked", "client_exc", "cb_raised") for e in self.traces[-1]):
+        if any(e[0] in ("blocked", "conn_lost", "client_exc", "cb_raised") for e in self.traces[-1]):
             self.poisoned = True
         self.cur = []
         self.rec.events = self.cur
@@ -190,7 +192,11 @@ class Client:
             fn()
             return True
         except RpcError as e:
-            self.cur.append(["error", e.error_type, e.error_message])
+            if e.error_type == "TransportError":
+                # the server side of the connection is gone (EOF / EPIPE): no more bytes will ever come
+                self.cur.append(["conn_lost"])
+            else:
+                self.cur.append(["error", e.error_type, e.error_message])
         except StopIteration:
             self.cur.append(["done"])
         except BaseException as e:  # noqa: BLE001 - anything else escaping the client API is an observation
@@ -199,6 +205,7 @@ class Client:
 
     def _step(self) -> None:
         ev = self.cur
+        self.opened_crash = False
         if self.sess is None:
             call = self.calls[self.idx]
             if call[0] == "unary":
@@ -207,6 +214,7 @@ class Client:
                 return
             op, method, pid, k, after = call[:5]
             box: dict[str, Any] = {}
+            self.opened_crash = bool(self.is_crash(call))
 
             def open_() -> None:
                 s = getattr(self.proxy, method)(pid=pid)
@@ -270,7 +278,7 @@ class Client:
 
 # --------------------------------------------------------------------------- the controller
 def run_case(handle: ServerHandle, scripts: list[list[list[Any]]], rng: Any, tag: str, presend: bool = True,
-             fixed_schedule: list[int] | None = None) -> dict[str, Any]:
+             fixed_schedule: list[int] | None = None, is_crash: Any = None) -> dict[str, Any]:
     """Run the connection scripts concurrently under a seeded client-side schedule.
 
     Returns {"traces": per connection list of per-call traces, "schedule": observed linearisation (list of connection
@@ -286,7 +294,7 @@ def run_case(handle: ServerHandle, scripts: list[list[list[Any]]], rng: Any, tag
     with g.cond:
         g.hw = 0
         g.events.clear()
-    clients = [Client(i, scripts[i]) for i in range(n)]
+    clients = [Client(i, scripts[i], is_crash) for i in range(n)]
     phase = ["fresh"] * n
     schedule: list[int] = []
     served: list[int] = []
@@ -319,7 +327,16 @@ def run_case(handle: ServerHandle, scripts: list[list[list[Any]]], rng: Any, tag
             if not c.wait():
                 raise Hang(f"connection {i}: request sent while queued was not answered after the connection got its slot")
             c.pending = False
-            log(i)
+            after_step(i)
+
+    def after_step(i: int) -> None:
+        """Log a client step of a served connection; a step that made serve() raise ends the server side at once."""
+        c = clients[i]
+        if c.opened_crash and phase[i] == "serving":
+            if not g.wait_for(lambda: exited(c)):
+                raise Hang(f"connection {i}: serve() was expected to raise but did not return")
+            phase[i] = "zombie"
+        log(i)
 
     def hand_over() -> None:
         """A slot was released: the real semaphore picks one of the queued connections."""
@@ -375,7 +392,7 @@ def run_case(handle: ServerHandle, scripts: list[list[list[Any]]], rng: Any, tag
                     c.pending = True
                     c.release()
                 continue
-            # serving
+            # serving, or zombie (serve() of this connection raised earlier: the client runs on alone)
             if c.finished():
                 c.disconnect()
                 if not g.wait_for(lambda: exited(c)):
@@ -383,13 +400,13 @@ def run_case(handle: ServerHandle, scripts: list[list[list[Any]]], rng: Any, tag
                 phase[i] = "done"
                 log(i)
                 # the slot is released right after serve() returns; give it to a queued connection
-                if maxc is not None:
-                    hand_over()
+                hand_over()
                 continue
             c.release()
             if not c.wait():
                 raise Hang(f"connection {i}: client step {c.steps_done} did not return although the connection is being served")
-            log(i)
+            after_step(i)
+            hand_over()
     except Hang as e:
         anomalies.append(f"hang: {e}")
     finally:
